@@ -152,7 +152,11 @@ MAPPER_CONFIGS = [
     ("mapped:0x0:lifo:A",           "2,2;3,2;4,0", "3,3;4,2;5,1;6,0"),
     # recursive mapper built with new_unchecked from a non-recursive alias of the level-4 table
     ("reca126:0x0:asc:A",           "2,2;3,0",     "3,3;4,1;5,0"),
-    ("reca1:0x40000000:lifo:B",   "2,1",         "3,2;4,0"),
+    ("reca1:0x40000000:lifo:B",     "2,1",         "3,2;4,0"),
+    # alphabet C: pages whose table indices are related (equal at two/three/four levels, swapped pairs, == R)
+    ("offset:0x0:asc:C",            "2,2;3,1;4,0", "3,3;4,1;5,0"),
+    ("mapped:0x3fffd000:lifo:C",    "2,2;3,1;4,0", "3,3;4,1;5,0"),
+    ("rec5:0x0:asc:C",              "2,2;3,2;4,0", "3,3;4,2;5,0"),
 ]
 
 def mapper_units(tier):
@@ -166,7 +170,7 @@ _MAPPER_RULE = ("explicit-state breadth-first search over call histories on the 
                 "over simulated physical memory: state = concrete content of all page-table frames + allocator pool (+ deviations used); ~250 actions "
                 "per state (map_to_with_table_flags/map_to/identity_map x 3 sizes x frames x leaf flags (incl. one value with every flag bit but HUGE_PAGE) x 4 parent-flag values (two of them incomparable) x 5 allocator failure schedules, unmap, "
                 "update_flags, set_flags_p4/p3/p2_entry, clean_up, clean_up_addr_range x 12 ranges); bounds are unions of (depth, deviation) pairs, a deviation "
-                "being one non-default argument; 18 configurations (implementation x physical base x allocator policy x page alphabet A nesting / B edges). "
+                "being one non-default argument; 21 configurations (implementation x physical base x allocator policy x page alphabet A nesting / B edges / C related indices). "
                 "After every transition: outcome class vs the abstract model R1 (Appendix A of DESIGN.md), full hardware-style traversal R2 of raw memory == R1, "
                 "parent-entry flags, allocation/deallocation logs, access monitor; in every new state: translate/translate_addr/translate_page on the probe addresses == R1 == single-address hardware walk.")
 
